@@ -7,6 +7,7 @@ import (
 	"encoding/hex"
 	"encoding/json"
 	"fmt"
+	"github.com/thushan/olla/internal/config"
 	"os"
 	"strings"
 	"sync"
@@ -230,7 +231,16 @@ func TestVerif_Dispatch(t *testing.T) {
 			opts[i].Type = sc.EpType
 			modelsOf[name] = opts[i].Models
 		}
-		stk, err := verifBoot(sc.Engine, sc.LB, "auto", opts, nil)
+		var mod func(*config.Config)
+		for _, stp := range sc.Steps {
+			for _, k := range stp.Plans {
+				if k == "dial_timeout" {
+					// a black-holed backend costs one connection timeout per attempt: keep it short
+					mod = func(c *config.Config) { c.Proxy.ConnectionTimeout = 600 * time.Millisecond }
+				}
+			}
+		}
+		stk, err := verifBoot(sc.Engine, sc.LB, "auto", opts, mod)
 		if err != nil {
 			b.Emit("Reset", "scn", sn, "engine", sc.Engine, "eps", sc.Eps, "booted", false, "err", err.Error())
 			return
@@ -287,6 +297,11 @@ func TestVerif_Dispatch(t *testing.T) {
 						be.SetDown(true)
 						emit("Down", "e", be.Name, "d", true)
 					}
+					if kind == "dial_timeout" {
+						// connections to it neither succeed nor are refused: the dial ends in olla's own timeout
+						be.SetBlackHole(true)
+						emit("Down", "e", be.Name, "d", true, "how", "blackhole")
+					}
 					boomMu.Lock()
 					was := boomSet[be.Name]
 					boomSet[be.Name] = kind == "panic"
@@ -326,6 +341,10 @@ func TestVerif_Dispatch(t *testing.T) {
 				for _, be := range stk.backends {
 					if stp.Plans[be.Name] == "refuse" {
 						be.SetDown(false)
+						emit("Down", "e", be.Name, "d", false)
+					}
+					if stp.Plans[be.Name] == "dial_timeout" {
+						be.SetBlackHole(false)
 						emit("Down", "e", be.Name, "d", false)
 					}
 				}
